@@ -60,11 +60,10 @@ SIG = {
 }
 # operations without a Gallina model: judged by the specification oracle only (labelled in the evidence)
 NO_MODEL = {"midmul", "mod_ps", "maxpy_s", "shift", "getEntry", "setEntry", "val"}
-# operations whose C++ body ends in setdegree / assign (or whose result is normal for mathematical reasons when the
-# operands are): with operands in normal form the raw result vector must carry no leading zero coefficient.
-# The others (add, sub, neg, scalar forms, mod, divmod's remainder, diff, axpy, interpolation, CRT) normalise lazily --
-# degree(), isZero(), areEqual(), assign() strip on read; their raw leading zeros are counted in the evidence, and the
-# accessors are checked on such vectors by the "unnormalised-operands" stream.
+# Normal form of results: with operands in normal form EVERY polynomial result must carry no leading zero coefficient
+# (the property's last sentence).  STRICT_NORMAL lists the operations whose body always ended in setdegree / assign; the
+# others (add, sub, scalar forms, scalar products, diff, scalar fused forms) were repaired by fix-10 / fix-11 and report
+# under class "unnormalised-result".  With operands that carry leading zeros themselves the result is only counted.
 STRICT_NORMAL = {"setdegree", "assign", "monomial", "reverse", "subin", "div_s", "mul", "stdmul", "karamul", "mulin", "sqr",
                  "div", "modin", "gcd", "gcdext", "invmod", "invmodunit", "lcm", "pow", "powmod", "invmodpowx",
                  "maxpyin", "axmy", "pdivmod", "pmod", "mul_trunc", "midmul", "power_compose", "modpowx",
@@ -951,10 +950,19 @@ def run_stream(chk, label, bins, tag, drv, cases, kthr, sthr, stats):
         except Exception:
             nf = True
         if not nf:
-            if op in STRICT_NORMAL and inputs_normal:
-                chk.fail_input("Poly1Dom::" + op, "leading-zero-in-result", case, "normal form", iout[i][:2000])
+            if inputs_normal:
+                # the property: results are normalised.  STRICT_NORMAL = operations that always ended in setdegree;
+                # the others (add/sub/scalar/fused forms, diff, ...) normalised lazily before fix-10/fix-11
+                chk.fail_input("Poly1Dom::" + op, "leading-zero-in-result" if op in STRICT_NORMAL else "unnormalised-result", case,
+                               "normal form (no leading zero coefficient)", iout[i][:2000],
+                               "operands in normal form, value correct, but the result vector carries leading zero coefficients")
                 continue
             stats["lazy_unnormalised"][op] = stats["lazy_unnormalised"].get(op, 0) + 1
+            if ("Poly1Dom::" + op, "unnormalised-result") in stats["known_classes"]:
+                # operands with leading zeros, result with leading zeros, and the missing setdegree of this operation is a
+                # listed, not yet repaired defect: the model follows the repaired code, no correspondence verdict
+                stats["in_known_defect_class_oracle_only"] += 1
+                continue
         if ("Poly1Dom::" + op, klass) in stats["known_classes"]:
             # the input lies in the class of a listed, not yet repaired defect and the output happens to satisfy the
             # specification (e.g. remainder 0, lc(B)^k = 1): the model follows the repaired code, no correspondence verdict
@@ -1062,5 +1070,5 @@ def main(tier, replay=None):
     chk.cov["distribution_by_variant"] = stats["by_variant"]
     chk.cov["distribution_by_field"] = stats["by_field"]
     chk.cov["distribution_by_max_operand_size"] = stats["by_size"]
-    chk.cov["lazily_normalised_results_with_leading_zeros_seen"] = stats["lazy_unnormalised"]
+    chk.cov["results_with_leading_zeros_for_operands_with_leading_zeros"] = stats["lazy_unnormalised"]
     return chk.finish()
